@@ -151,6 +151,10 @@ class Codec:
         valid_idx = rawmsg.find(b"8=FIX.")
         if valid_idx == -1:
             assert silent, "no fix header"
+            # the buffer may end inside the marker of the next frame: keep that tail
+            for tail in range(5, 0, -1):
+                if rawmsg.endswith(b"8=FIX."[:tail]):
+                    return None, len(rawmsg) - tail, None
             return None, len(rawmsg), None
 
         parsed_length = valid_idx
